@@ -8,8 +8,10 @@ ASSUMPTIONS = [
     "share_hash_tree pre-state in Retrieve: root = root_hash of the signature-validated verinfo, plus (optionally) already validated leaves (C35 family); "
     "the per-share block hash tree is empty, genuine (earlier segment), or an arbitrary SELF-CONSISTENT tree / arbitrary lone root (left over from an earlier failed validation: it is only ever filled by the all-or-nothing set_hashes)",
     "layout parsing of adversarial mutable shares (mutable/layout.py readers) is not encoded: the gates receive what the reader returns as symbolic values",
-    "for SDMF the salt (IV) is not covered by the block hash; Retrieve takes it from the reader's parsed header, which is the signed prefix only when the reader is the one "
-    "whose verinfo was validated by the servermap update (Retrieve._try_to_validate_prefix is never called) -- outside the encoded gates",
+    "for SDMF the salt (IV) is not covered by the block hash; Retrieve takes it from the reader's parsed header and never compares it with the verinfo "
+    "(Retrieve._try_to_validate_prefix is never called): integrity of the IV rests on reading through the proxy whose prefix the servermap update signature-checked "
+    "(obligation validated_readers); servermap invariant assumed there: every share recorded by ServermapUpdater has its proxy cached (set in _got_results before the "
+    "share is added) -- a servermap whose shares were added by Publish has no such proxies and is outside",
     "availability ('k intact shares => success') is not encoded",
 ]
 T = {"quick": 240, "thorough": 1500}
@@ -47,4 +49,12 @@ OBLIGATIONS = [
         cases=[{"nseg": 1, "_label": "nseg1"}, {"nseg": 2, "_label": "nseg2"}],
         desc="Retrieve._validate_block accepts a genuine share (SDMF/MDMF, either share number, any segment, block hash tree fresh or already filled, "
              "share hash leaves already known or not, chain with or without the share's own leaf) and leaves nothing needed"),
+    chx("validated_readers", "C10_h", "h_setup_download", timeout=T,
+        desc="Retrieve._setup_download with a real ServerMap (2 servers x 3 shares of the version, symbolic holdings, every recorded share has its signature-checked proxy "
+             "cached, symbolic _data_is_everything flags, optionally another version on a third server): each reader is the cached VALIDATED proxy of a server holding "
+             "that share (never a freshly built proxy whose header/IV nobody compares with the verinfo), bound to that server; readers == share numbers of this version; "
+             ">= k or NotEnoughShares; hash trees fresh, share hash tree seeded with the signed root"),
+    chx("decode_salt", "C10_h", "h_decode_salt", timeout=T,
+        desc="Retrieve._decode_blocks: the salt handed on to decryption is the salt object of one of the validated {shnum:(block,salt)} results, exactly k blocks are "
+             "decoded, each paired with its own share id, right decoder, segment trimmed"),
 ]
